@@ -272,8 +272,10 @@ PCS = [(1, 4), (0, 2), (3, 5), (1, 2)]
 def dyadic_grid(rng, N, uniform=False):
     t = F(rng.choice([0, -3, 5, 1])) / rng.choice([1, 2, 4])
     out = [t]
+    # a trajectory may be sampled backward in time (strictly decreasing stamps, e.g. a stable-manifold branch): one grid in four
+    sgn = -1 if rng.random() < 0.25 else 1
     for _ in range(N - 1):
-        t = t + (F(1, 2) if uniform else rng.choice([F(1), F(1, 2), F(2), F(1, 4)]))
+        t = t + sgn * (F(1, 2) if uniform else rng.choice([F(1), F(1, 2), F(2), F(1, 4)]))
         out.append(t)
     return out
 
@@ -485,14 +487,18 @@ def oracle(case, real, backend=None):
     N = len(ts)
     d = case.direction
     hits = [(F(t), [F(v) for v in x], [F(v) for v in p]) for t, x, p in real]
+    # a trajectory sampled backward in time has strictly decreasing stamps: "time order", "inside the interval", "before" are all meant
+    # along the trajectory, i.e. in the order parameter o(t) = +-t that increases with the sample index
+    sg = -1 if ts[-1] < ts[0] else 1
+    o = lambda t: sg * t
     # point2d is the projection of the state
     for t, x, p in hits:
         if p != [x[case.pc[0]], x[case.pc[1]]]:
             return ("point2d-not-projection", "point2d %r is not the projection of the state" % ([float(v) for v in p],))
     # ordered in time, strictly, and consecutive reported hits are not duplicates of each other
     for (ta, xa, pa), (tb, xb, pb) in zip(hits, hits[1:]):
-        if not ta < tb:
-            return ("hits-not-time-ordered", "hit times not strictly increasing: %r then %r" % (float(ta), float(tb)))
+        if not o(ta) < o(tb):
+            return ("hits-not-time-ordered", "hit times not strictly monotone along the trajectory: %r then %r" % (float(ta), float(tb)))
         if abs(tb - ta) <= case.ttol or (pb[0] - pa[0]) ** 2 + (pb[1] - pa[1]) ** 2 <= case.ptol ** 2:
             return ("duplicate-hit-reported", "consecutive hits at t=%r and t=%r are duplicates under the dedup rule" % (float(ta), float(tb)))
 
@@ -512,11 +518,11 @@ def oracle(case, real, backend=None):
 
     gv = lambda x: sum(a * b for a, b in zip(x, case.normal)) - case.offset
     for t, x, p in hits:
-        if not ts[0] <= t <= ts[-1]:
+        if not o(ts[0]) <= o(t) <= o(ts[-1]):
             return ("hit-outside-trajectory", "hit time %r outside the sampled interval" % float(t))
         ok = False
         for k in range(N - 1):
-            if not ts[k] <= t <= ts[k + 1]:
+            if not o(ts[k]) <= o(t) <= o(ts[k + 1]):
                 continue
             if t == ts[k] and x == case.states[k] and abs(g[k]) < case.tol:
                 ok = True       # a sample lying on the surface
@@ -534,7 +540,7 @@ def oracle(case, real, backend=None):
         return None
     def excused(te, xe):
         """the stated dedup rule: the expected hit is a duplicate of the last reported hit before it"""
-        prev = [h for h in hits if h[0] < te]
+        prev = [h for h in hits if o(h[0]) < o(te)]
         if not prev:
             return False
         tp, xp, pp = prev[-1]
@@ -548,7 +554,7 @@ def oracle(case, real, backend=None):
     if _is_small(case.ttol) and _is_small(case.ptol):
         for k in range(N - 1):
             if strict(k) and abs(g[k]) >= case.tol and abs(g[k + 1]) >= case.tol:
-                cnt = sum(1 for t, x, p in hits if ts[k] < t < ts[k + 1])
+                cnt = sum(1 for t, x, p in hits if o(ts[k]) < o(t) < o(ts[k + 1]))
                 if cnt == 0 and excused(*chord_zero(k)):
                     continue
                 if cnt != 1:
@@ -556,7 +562,7 @@ def oracle(case, real, backend=None):
                             "segment %d [%r,%r] has a strict sign change %r -> %r compatible with direction %r but %d hits lie "
                             "inside it" % (k, float(ts[k]), float(ts[k + 1]), float(g[k]), float(g[k + 1]), d, cnt))
             elif not weak(k):
-                cnt = sum(1 for t, x, p in hits if ts[k] < t < ts[k + 1])
+                cnt = sum(1 for t, x, p in hits if o(ts[k]) < o(t) < o(ts[k + 1]))
                 if cnt:
                     return ("spurious-hit", "segment %d has no direction-compatible sign change (%r -> %r, direction %r) but %d "
                             "hits lie strictly inside it" % (k, float(g[k]), float(g[k + 1]), d, cnt))
